@@ -146,6 +146,8 @@ used already and asked for triggers that random testing is unlikely to hit):
 * round 10 (34 admitted changes for 12 properties, 10 missed at first; two more rejected, one re-filed): see DESIGN section 13 "Round 10".
 * round 11 (54 admitted changes for 19 properties, 18 missed at first; three more rejected, three re-filed; one round-9
   rejection re-admitted): see DESIGN section 13 "Round 11".
+* round 12 (34 admitted changes for 12 properties, 11 missed at first; two more rejected, one re-filed; defect F18 found
+  and repaired): see DESIGN section 13 "Round 12".
 
 | id | change | needs to manifest | detected by its property's check | also caught by |
 |----|--------|-------------------|----------------------------------|----------------|
